@@ -33,7 +33,11 @@ def gen(rng, tier):
         focus["fix"] = True
     if rng.random() < 0.5:
         focus["res_abs"] = True
-    return C.forward_spec(rng, tier, focus)
+    return C.maybe_history(rng, C.forward_spec(rng, tier, focus), 0.25, reload_prob=0.3)
+
+
+def extra_candidates(spec):
+    return C.history_candidates(spec)
 
 
 def check_trace(res, tr):
@@ -41,6 +45,9 @@ def check_trace(res, tr):
     rec = tr.rec
     interesting = False
     prev_alloc = {tid: ((), ()) for tid in st.order}
+    if rec.init_snap is not None:
+        for tid in st.order:  # a continuation starts with the allocations the first call left
+            prev_alloc[tid] = (rec.init_snap["T"][tid][2], rec.init_snap["T"][tid][3])
     # static pool of ineligible candidates (for the reach probes)
     for tid in st.order:
         for wid in st.worker_order:
